@@ -6,6 +6,8 @@ CONSTANTS
   MinZero = TRUE
   KEdge = 0
   KOut = 0
+  HasRit = FALSE
+  KRit = 0
   Variant = "pinned"
 INVARIANT NoCrash
 CHECK_DEADLOCK FALSE
